@@ -10,7 +10,10 @@
      http.DefaultTransport    the parameter [base]
      middleware.LoggingMiddleware(t)   [log_mw t]
      map[string]string        [headers] (only stored and returned)
-     ctorRegistry             the world: an association list type id -> constructor
+     ctorRegistry             the world: an association list type id -> constructor; reflect.TypeOf(( *T)(nil))
+                              is the abstract id T; lookups, insertion and the type assertion of NewRest: below
+     new(RestConf)            [conf0]
+     panic(fmt.Errorf(f, typ.Elem(), ...))   [Panicked (PErrorf f typ)] (format and first argument only)
    No proofs in this file. *)
 From Coq Require Import List ZArith Bool String.
 From Shoot Require Import Model.RestRuntime.
@@ -36,5 +39,33 @@ Definition set_mws (l : list M) (r : conf M) : conf M :=
   mkConf (c_base r) (c_timeout r) (c_logging r) (c_headers r) l.
 
 Definition apply_mw (interp : M -> mw) (m : M) (t : rt) : rt := interp m t.
+
+(* an Option[RestConf, *RestConf] is a func( *RestConf): calling it on the record pointer replaces the record *)
+Definition apply_opt (f : conf M -> conf M) (r : conf M) : conf M := f r.
+
+(* v, ok := ctorRegistry[t]   (the values are stored as `any`: None = the nil interface of a miss) *)
+Definition reg_lookup (w : world) (t : nat) : option (ctor M Client) * bool :=
+  match lookup Client w t with
+  | Some c => (Some c, true)
+  | None => (None, false)
+  end.
+
+(* ctorRegistry[t] = c : replaces the entry of t, or adds one (at the end: Go's map order is not observable here) *)
+Fixpoint reg_insert (w : world) (t : nat) (c : ctor M Client) : world :=
+  match w with
+  | [] => [(t, c)]
+  | (t', c') :: w' => if Nat.eqb t' t then (t, c) :: w' else (t', c') :: reg_insert w' t c
+  end.
+
+(* x.(func(RestConf) T) on a value taken from the registry: it holds exactly when x is not the nil
+   interface -- Register[T] is the only writer and stores a func(RestConf) T under T's own type
+   (TRUSTED: the one dynamic type test of NewRest is not modelled further) *)
+Definition assert_ctor (x : option (ctor M Client)) : option (ctor M Client) * bool :=
+  (x, match x with Some _ => true | None => false end).
+
+Definition apply_ctor (c : ctor M Client) (r : conf M) : Client := c r.
+
+(* reflect.Type.Elem of the pointer type the id stands for: the same id (ids name the interface T) *)
+Definition type_elem (t : nat) : nat := t.
 
 End Prims.
